@@ -179,7 +179,7 @@ def gen_cases(rng, tier):
     rf = B['riff']
     for v in list(range(-9, 10)) + [2 ** 31 - 1, -2 ** 31, len(rf)]:
         yield {'t': 'riff', 'data': rf[:16] + struct.pack('>i', v) + rf[20:]}
-    for n in ([50, 200, 800] if not thorough else [100, 400, 1600, 4000]):
+    for n in ([50, 200, 800] if not thorough else [100, 400, 1600, 3000]):
         for kind in (0, 1, 2):
             yield {'t': 'lscr', 'data': many_jumps(n, kind)}
     per = 12 if not thorough else 150
